@@ -290,3 +290,56 @@ fn c20_eightbit_index_modular() {
     std::mem::forget(res);
     std::mem::forget(chunks);
 }
+
+//# kind=complete tier=quick props=C20,C05 fns=color_sgr_encode | true-colour depth: the colour is transmitted unchanged - after the role's 38 / 48 / 58 and the selector 2, exactly the three channel values r, g, b of the colour, in that order, for every opaque colour and every role
+#[kani::proof]
+#[kani::unwind(12)]
+fn c20_truecolor_unchanged() {
+    use kfmt_rec::*;
+    unsafe { REAL = false; }
+    let (r, g, b): (u8, u8, u8) = (kani::any(), kani::any(), kani::any());
+    let role: u8 = kani::any();
+    kani::assume(role < 3);
+    let mut chunks = Chunks::default();
+    let res = color_sgr_encode(&mut chunks, crate::RGBA::new(r, g, b, 255), ColorDepth::TrueColor,
+        match role { 0 => SGRColorType::Foreground, 1 => SGRColorType::Background, _ => SGRColorType::Underline });
+    assert!(res.is_ok());
+    unsafe {
+        assert!(NF == 3 && NA == 3 && OTHERS == 0);
+        assert!(str_eq(FMTS[0], "{}") && str_eq(FMTS[1], "{}") && str_eq(FMTS[2], "{}"));
+        assert!(ARGS[0] == r as i128 && ARGS[1] == g as i128 && ARGS[2] == b as i128);
+    }
+    kani::cover!(r != g && g != b);
+    std::mem::forget(res);
+    std::mem::forget(chunks);
+}
+
+//# kind=complete tier=quick props=C20,C05 fns=color_sgr_encode | grey-only depth, modular in `nearest`: one value (Color::luma of the colour; that it is the Rec. 709 luma is not decided - comparing two f32 evaluations of it did not finish) is looked up once in a 4-level table and level k is emitted as the SGR colour 30, 90, 37, 97 (black, bright black, white, bright white - increasing brightness) for a foreground, the same + 10 for a background, and nothing at all for an underline colour, which that depth cannot express
+#[kani::proof]
+#[kani::unwind(12)]
+#[kani::stub(nearest, stub_nearest)]
+fn c20_gray_index_modular() {
+    use kfmt_rec::*;
+    unsafe { REAL = false; }
+    let (r, g, b): (u8, u8, u8) = (kani::any(), kani::any(), kani::any());
+    let k: usize = kani::any();
+    kani::assume(k < 4);
+    unsafe { QANS = [k, 0, 0, 0]; }
+    let role: u8 = kani::any();
+    kani::assume(role < 3);
+    let mut chunks = Chunks::default();
+    let res = color_sgr_encode(&mut chunks, crate::RGBA::new(r, g, b, 255), ColorDepth::Gray,
+        match role { 0 => SGRColorType::Foreground, 1 => SGRColorType::Background, _ => SGRColorType::Underline });
+    assert!(res.is_ok());
+    unsafe {
+        assert!(NQ == 1 && QLEN[0] == 4);
+        if role == 2 { assert!(NF == 0 && NA == 0); } else {
+            let base: i128 = match k { 0 => 30, 1 => 90, 2 => 37, _ => 97 };
+            assert!(NF == 1 && NA == 1 && OTHERS == 0 && str_eq(FMTS[0], "{}"));
+            assert!(ARGS[0] == base + if role == 1 { 10 } else { 0 });
+        }
+    }
+    kani::cover!(role == 1 && k == 3);
+    std::mem::forget(res);
+    std::mem::forget(chunks);
+}
